@@ -350,6 +350,16 @@ def run_check(prop_factory, tier):
     from . import srcmap
     changed = srcmap.changed_functions()
     mult = srcmap.boost(pid, changed)
+    # source facts: the model's tables re-derived from the working tree and checked by the Lean kernel (harness/srcfacts.py)
+    from . import srcfacts
+    try:
+        sf = srcfacts.check(pid)
+    except core.Infra:
+        raise
+    except Exception:
+        print("INFRA: source facts could not be generated: " + traceback.format_exc()[-1500:]); return 2
+    if sf["failed_for_property"]:
+        mult = max(mult, 3)
     seconds *= mult
     args = [(prop_factory, tier, seed, s, nshards, seconds) for s in range(nshards)]
     opt_env = {"PYTHONOPTIMIZE": "1"}
@@ -422,6 +432,19 @@ def run_check(prop_factory, tier):
         print(f"  correspondence broken: {b['why'][:600]}")
         print(f"VIOLATION property={pid} replay={rel} no-failing-input-found")
         violations += len(disagree); exit_code = 1
+    if sf["failed_for_property"] and exit_code == 0:
+        # a table of the model no longer equals the table in the source and the search found no input on which the
+        # property fails: the property is no longer shown; the replay names the fact that no longer checks
+        f0 = sf["failed_for_property"][0]
+        b = {"case": {"source_fact": f0["name"]}, "impl": None, "model": None, "agree": False, "holds": True,
+             "why": f"source fact `{f0['name']}` no longer checks ({f0['about']}): {f0['reason']}"}
+        rel = write_replay(pid, seed, n_replay, "no-failing-input-found", b,
+                           broken={"theorem": f"SourceFacts.{f0['name']}", "generated_file": sf["file"], "statement": f0.get("stmt"),
+                                   "all_failed_facts": [x["name"] for x in sf["failed_for_property"]]})
+        n_replay += 1
+        print(f"  source fact broken: {b['why'][:600]}")
+        print(f"VIOLATION property={pid} replay={rel} no-failing-input-found")
+        violations += 1; exit_code = 1
     for k in load_known():
         if k.get("property") == pid and k.get("status") == "open" and k["id"] in known_hit:
             print(f"KNOWN-FINDING: property={pid} {k['what_fails']} [{k['id']}; seen {known_hit[k['id']]}x this run]")
@@ -452,6 +475,11 @@ def run_check(prop_factory, tier):
         "shards": nshards, "seconds_per_shard": seconds, "lake_build_s": round(bt, 2),
         "repo_head": core.repo_head(),
         "changed_source_functions": (changed if changed is not None else "model_map.json missing"), "budget_multiplier": mult,
+        "source_facts": {"what": "tables and constants of the model re-derived from the working tree on this run and checked by the "
+                                 "Lean kernel (decide; axioms audited): " + ", ".join(sf["for_property"]),
+                         "checked_for_this_property": len(sf["for_property"]), "checked_total": sf["checked"],
+                         "failed": [{"name": x["name"], "reason": x["reason"]} for x in sf["failed_for_property"]],
+                         "generated_file": sf["file"], "wall_s": sf["wall_s"]},
         "environments": {"default interpreter": f"{nshards} shards (odd shards with logging disabled)",
                          "PYTHONOPTIMIZE=1 (asserts compiled away)": (f"1 extra shard, {opt_result['evaluations']} cases" if opt_result else "not run"),
                          "4 threads at once (pure evaluators only)": sum(r.get("threaded", 0) for r in results)},
@@ -488,6 +516,16 @@ def run_replay(path, registry):
     if not ok:
         print("INFRA: lake build failed\n" + msg); return 2
     prop.setup()
+    if isinstance(r.get("case"), dict) and r["case"].get("source_fact"):
+        from . import srcfacts
+        sf = srcfacts.check(pid)
+        bad = [x for x in sf["failed_for_property"] if x["name"] == r["case"]["source_fact"]]
+        if bad:
+            print(json.dumps({"source_fact": bad[0]["name"], "reason": bad[0]["reason"], "about": bad[0]["about"]})[:2000])
+            print(f"VIOLATION property={pid} replay={path} no-failing-input-found")
+            return 1
+        print("replay no longer fails (the source fact checks again)")
+        return 0
     if env.get("threads"):
         comp = r["case"].get("companions") or []
         me = {k: v for k, v in r["case"].items() if k not in ("companions", "threads")}
